@@ -872,6 +872,8 @@ def normalize_package(trees, known=None, passes=None):
         inl = Inliner(trees, known)
         stats["inline"] = inl.run()
     for mn, t in trees.items():
+        if on(8):
+            unroll_const_loops(t)
         if on(7):
             canon_flow(t)
         if on(6):
@@ -914,15 +916,91 @@ def _is_wild(s):
     return isinstance(s, ast.Expr) and isinstance(s.value, ast.Constant) and s.value.value is Ellipsis
 
 
+def _bool_simplify(e):
+    """in a boolean context: True if A else X -> A or X; False if A else X -> not A and X; X if A else False -> A and X; X if A else True -> not A or X"""
+    if isinstance(e, ast.IfExp):
+        a, x, y = e.test, _bool_simplify(e.body), _bool_simplify(e.orelse)
+        cx = x.value if isinstance(x, ast.Constant) and isinstance(x.value, bool) else None
+        cy = y.value if isinstance(y, ast.Constant) and isinstance(y.value, bool) else None
+        new = None
+        if cx is True and cy is False:
+            new = a
+        elif cx is False and cy is True:
+            new = _negate(a)
+        elif cx is True:
+            new = ast.BoolOp(op=ast.Or(), values=[a, y])
+        elif cx is False:
+            new = ast.BoolOp(op=ast.And(), values=[_negate(a), y])
+        elif cy is False:
+            new = ast.BoolOp(op=ast.And(), values=[a, x])
+        elif cy is True:
+            new = ast.BoolOp(op=ast.Or(), values=[_negate(a), x])
+        if new is not None:
+            new = ast.fix_missing_locations(ast.copy_location(new, e))
+            return _flatten_bool(new)
+    if isinstance(e, ast.UnaryOp) and isinstance(e.op, ast.Not):
+        return ast.copy_location(ast.UnaryOp(op=ast.Not(), operand=_bool_simplify(e.operand)), e)
+    if isinstance(e, ast.BoolOp):
+        e.values = [_bool_simplify(v) for v in e.values]
+        return _flatten_bool(e)
+    return e
+
+
+def _flatten_bool(e):
+    if isinstance(e, ast.BoolOp):
+        vals = []
+        for v in e.values:
+            if isinstance(v, ast.BoolOp) and type(v.op) is type(e.op):
+                vals.extend(v.values)
+            else:
+                vals.append(v)
+        e.values = vals
+    return e
+
+
+def _single_use_test_temp(stmts):
+    """t = <expr>; if t: ...  (t used nowhere else) -> if <expr>: ..."""
+    out = []
+    i = 0
+    while i < len(stmts):
+        s = stmts[i]
+        nxt = stmts[i + 1] if i + 1 < len(stmts) else None
+        if isinstance(s, ast.Assign) and len(s.targets) == 1 and isinstance(s.targets[0], ast.Name) and isinstance(nxt, ast.If):
+            v = s.targets[0].id
+            uses_in_test = [n for n in ast.walk(nxt.test) if isinstance(n, ast.Name) and n.id == v]
+            elsewhere = [n for st in stmts[i + 1:] for n in ast.walk(st) if isinstance(n, ast.Name) and n.id == v and n not in uses_in_test]
+            if len(uses_in_test) == 1 and not elsewhere and v.startswith("_inl"):
+                # the single use must be the first thing the test evaluates
+                first = nxt.test
+                while isinstance(first, (ast.BoolOp, ast.UnaryOp, ast.Compare)):
+                    first = first.values[0] if isinstance(first, ast.BoolOp) else first.operand if isinstance(first, ast.UnaryOp) else first.left
+                if first is uses_in_test[0]:
+                    _replace_node(nxt, uses_in_test[0], s.value)
+                    i += 1
+                    continue
+        out.append(s)
+        i += 1
+    return out
+
+
 def canon_flow_list(stmts, pattern=False):
     """guard-clause form: an `else` after a branch that always leaves the block is flattened; the leaving branch comes first;
     `if not c: A else: B` (neither leaving) becomes `if c: B else: A`; if/else assigning one target becomes a conditional expression"""
     out = []
+    if not pattern:
+        stmts = _single_use_test_temp(list(stmts))
     for s in stmts:
+        if isinstance(s, (ast.If, ast.While)) and not pattern:
+            s.test = _bool_simplify(s.test)
         for f in ("body", "orelse", "finalbody"):
             v = getattr(s, f, None)
             if isinstance(v, list) and v and isinstance(v[0], ast.stmt) and not isinstance(s, (ast.FunctionDef, ast.AsyncFunctionDef, ast.ClassDef)):
                 setattr(s, f, canon_flow_list(v, pattern))
+        # if A or B: <leave>  ->  if A: <leave>  if B: <leave>
+        if isinstance(s, ast.If) and not s.orelse and not pattern and isinstance(s.test, ast.BoolOp) and isinstance(s.test.op, ast.Or) and _exits(s.body) and len(s.body) == 1 and isinstance(s.body[0], (ast.Continue, ast.Break, ast.Return)) and (not isinstance(s.body[0], ast.Return) or isinstance(s.body[0].value, (ast.Constant, type(None)))):
+            for v in s.test.values:
+                out.append(ast.fix_missing_locations(ast.copy_location(ast.If(test=v, body=[copy.deepcopy(s.body[0])], orelse=[]), s)))
+            continue
         if isinstance(s, ast.Try):
             for h in s.handlers:
                 h.body = canon_flow_list(h.body, pattern)
@@ -952,7 +1030,49 @@ def canon_flow_list(stmts, pattern=False):
                     s.test = s.test.operand
                     s.body, s.orelse = s.orelse, s.body
         out.append(s)
+    # if c: return a   return b   ->   return a if c else b   (applied from the end, so chains nest)
+    i = len(out) - 2
+    while i >= 0:
+        a, b = out[i], out[i + 1]
+        if isinstance(a, ast.If) and not a.orelse and len(a.body) == 1 and isinstance(a.body[0], ast.Return) and a.body[0].value is not None and isinstance(b, ast.Return) and b.value is not None:
+            new = ast.Return(value=ast.IfExp(test=a.test, body=a.body[0].value, orelse=b.value))
+            out[i:i + 2] = [ast.fix_missing_locations(ast.copy_location(new, a))]
+        i -= 1
     return out
+
+
+# ----------------------------------------------------------------------
+# N8  loops over a constant tuple are unrolled
+# ----------------------------------------------------------------------
+
+class _SubstName(ast.NodeTransformer):
+    def __init__(self, name, value):
+        self.name, self.value = name, value
+
+    def visit_Name(self, node):
+        if node.id == self.name and isinstance(node.ctx, ast.Load):
+            return ast.copy_location(copy.deepcopy(self.value), node)
+        return node
+
+
+def unroll_const_loops(tree):
+    for n in ast.walk(tree):
+        for f in ("body", "orelse", "finalbody"):
+            v = getattr(n, f, None)
+            if not (isinstance(v, list) and v and isinstance(v[0], ast.stmt)):
+                continue
+            out = []
+            for s in v:
+                if isinstance(s, ast.For) and not s.orelse and isinstance(s.target, ast.Name) and isinstance(s.iter, (ast.Tuple, ast.List)) and 1 <= len(s.iter.elts) <= 8 and all(isinstance(e, ast.Constant) for e in s.iter.elts) \
+                        and not any(isinstance(x, (ast.Break, ast.Continue, ast.Return, ast.Yield, ast.YieldFrom)) for b in s.body for x in ast.walk(b)) \
+                        and not any(isinstance(x, ast.Name) and x.id == s.target.id and isinstance(x.ctx, ast.Store) for b in s.body for x in ast.walk(b)) and len(s.body) <= 3:
+                    for e in s.iter.elts:
+                        for b in s.body:
+                            out.append(ast.fix_missing_locations(_SubstName(s.target.id, e).visit(copy.deepcopy(b))))
+                else:
+                    out.append(s)
+            setattr(n, f, out)
+    return tree
 
 
 class _Compare(ast.NodeTransformer):
